@@ -12,13 +12,14 @@ import (
 
 // GrammarCase is one grammar of the gocc-level workload (C09, C11).
 type GrammarCase struct {
-	ID         string
-	Text       string
-	File       string // file name given to gocc
-	NeedFlags  []string
-	IR         *corpus.Grammar // nil for repository grammars
-	Compilable bool            // header and actions are valid Go inside the scratch module
-	HasSyntax  bool
+	ID          string
+	Text        string
+	File        string // file name given to gocc
+	NeedFlags   []string
+	IR          *corpus.Grammar // nil for repository grammars
+	Compilable  bool            // header and actions are valid Go inside the scratch module
+	HasSyntax   bool
+	SyntaxKnown bool // HasSyntax is reliable although IR is nil (markdown variants of IR grammars)
 }
 
 // goccWorkload assembles the grammars: the fixed corpus rendered for package
@@ -42,8 +43,13 @@ func goccWorkload(copyDir string, pkg string, withRepo bool, extra []*corpus.Gra
 			continue
 		}
 		cut += len(text) / 3
-		md := "# Grammar " + g.ID + "\n\nSome prose with `inline code` and a | table | row |\n\n```\n" + text[:cut] + "\n```\n\nMore prose: A : b ; << not code >>\n\n```\n" + text[cut:] + "\n```\n\ntrailing words\n"
-		out = append(out, &GrammarCase{ID: g.ID + ".md", Text: md, File: "g.md", NeedFlags: g.Flags, IR: nil, HasSyntax: g.HasSyntax()})
+		long := ""
+		if g.ID == "calc" || g.ID == "errdeep" {
+			// a very long line in the prose (an embedded image, a minified blob)
+			long = "![img](data:image/png;base64," + strings.Repeat("iVBORw0KGgoAAAANSUhEUgAA", 3500) + ")\n\n"
+		}
+		md := "# Grammar " + g.ID + "\n\nSome prose with `inline code` and a | table | row |\n\n```\n" + text[:cut] + "\n```\n\n" + long + "More prose: A : b ; << not code >>\n\n```\n" + text[cut:] + "\n```\n\ntrailing words\n"
+		out = append(out, &GrammarCase{ID: g.ID + ".md", Text: md, File: "g.md", NeedFlags: g.Flags, IR: nil, HasSyntax: g.HasSyntax(), SyntaxKnown: true})
 	}
 	if !withRepo {
 		return out
